@@ -60,6 +60,10 @@ def simp(t):
     return (op, *args)
 
 
+class _Undecided(Exception):
+    pass
+
+
 class SymExec:
     """Evaluates the straight-line / if fragment murmur2 is written in, on symbolic 32-bit terms."""
     module_consts = {}      # module-level integer constants of the partitioner module (a literal may be given a name there)
@@ -70,6 +74,8 @@ class SymExec:
         self.ret = None
         self.tail_len = tail_len      # length % 4 in the phase that evaluates the tail
         self.len_name = len_name
+        self.oracle = []              # decisions for tests on the (unknown) length: replayed by the driver
+        self.trace = []               # (operator, constant, taken) of every such test met
 
     def idx(self, e):
         """Index expression -> ('blk', k) for 4*i + k, ('tail', k) for (length & ~3) + k, else None."""
@@ -170,6 +176,20 @@ class SymExec:
             if a[0] == "const" and b[0] == "const" and op in ("shl", "xor", "and", "or", "add", "mul"):
                 pass
             return (op, a, b)
+        if isinstance(e, ast.Subscript) and isinstance(e.slice, ast.Slice) and isinstance(e.value, ast.Name) and self.env.get(e.value.id) == S("data") \
+                and isinstance(e.slice.lower, ast.UnaryOp) and isinstance(e.slice.lower.op, ast.USub) and e.slice.upper is None and e.slice.step is None and self.tail_len is not None:
+            # data[-k:] : the last k bytes -- but for k == 0 Python reads `data[-0:]`, the WHOLE buffer
+            kv = self.ev(e.slice.lower.operand)
+            if kv[0] == "const":
+                if kv[1] == 0:
+                    return ("bytes", "whole", 0, None)
+                if kv[1] == self.tail_len:
+                    return ("bytes", "tail", 0, kv[1])
+            return ("call", unparse(e))
+        if isinstance(e, ast.Subscript) and not isinstance(e.slice, ast.Slice) and isinstance(e.value, ast.Name) and isinstance(self.env.get(e.value.id), tuple) \
+                and self.env.get(e.value.id)[0] == "bytes" and isinstance(e.slice, ast.Constant) and isinstance(e.slice.value, int) and e.slice.value >= 0:
+            _b, kind, start, _n = self.env[e.value.id]
+            return byte(kind, start + e.slice.value)
         if isinstance(e, ast.Subscript) and isinstance(e.slice, ast.Slice) and isinstance(e.value, ast.Name) and self.env.get(e.value.id) == S("data"):
             lo = self.lin(e.slice.lower) if e.slice.lower is not None else {"c": 0}
             if lo is not None and e.slice.step is None:
@@ -213,7 +233,7 @@ class SymExec:
             if f == "len" and e.args:
                 v = self.ev(e.args[0])
                 if isinstance(v, tuple) and v[0] == "bytes":
-                    return C(v[3])
+                    return C(v[3]) if v[3] is not None else S("len")
             return ("call", unparse(e))
         if isinstance(e, ast.UnaryOp) and isinstance(e.op, ast.Invert):
             v = self.ev(e.operand)
@@ -276,6 +296,16 @@ class SymExec:
                     if isinstance(lv, tuple) and lv[0] == "const":
                         self.run(s.body if lv[1] else s.orelse)
                         continue
+                if isinstance(t, ast.Compare) and len(t.ops) == 1 and isinstance(t.left, ast.Name) and self.env.get(t.left.id) == S("len") and const_value(t.comparators[0]) is not None \
+                        and self.tail_len is not None:
+                    # a test on the length itself: both outcomes are explored by the driver (which keeps the lengths compatible with length % 4)
+                    i_ = len(self.trace)
+                    if i_ >= len(self.oracle):
+                        raise _Undecided(i_)
+                    taken = self.oracle[i_]
+                    self.trace.append((type(t.ops[0]).__name__, const_value(t.comparators[0]), taken))
+                    self.run(s.body if taken else s.orelse)
+                    continue
                 raise AnalysisError(f"murmur2: undecidable branch {unparse(t)[:40]}")
             elif isinstance(s, ast.Return):
                 self.ret = self.ev(s.value)
@@ -450,15 +480,35 @@ def rule_murmur(ctx):
     # phase C: tail + finaliser for each length % 4
     for e in range(4):
         # the straight-line prologue is pure: re-evaluate it knowing length % 4 == e (a hoisted `extra = length % 4` is a constant here)
-        sc = SymExec({p: S("data"), ln: S("len")}, tail_len=e, len_name=ln)
-        for s_ in cnt:
-            sc.env[s_.targets[0].id] = {"n4": 1}
-        sc.run([s_ for s_ in preA if s_ not in cnt])
-        sc.env[hname] = S("h")
-        sc.run(post)
-        ctx.anchor(sc.ret is not None, "murmur2 returns")
-        ok = _canon(sc.ret) == _canon(ref_fin[e])
-        ctx.rep.ob(R, ctx.site(fi, fi.node), f"{fi.qualname}|tail-{e}", ok, f"tail + finaliser for length % 4 == {e} differs from Java's (bytes {list(range(e))} mixed in unsigned, multiply iff >= 1, then >>>13, *m, >>>15)")
+        import operator as _op
+        CMP = {"GtE": _op.ge, "Gt": _op.gt, "Eq": _op.eq, "LtE": _op.le, "Lt": _op.lt, "NotEq": _op.ne}
+        pending, ok, witness = [[]], True, None
+        n_runs = 0
+        while pending:
+            oracle = pending.pop()
+            n_runs += 1
+            if n_runs > 64:
+                raise AnalysisError("murmur2: too many length-dependent branches in the tail")
+            sc = SymExec({p: S("data"), ln: S("len")}, tail_len=e, len_name=ln)
+            sc.oracle = oracle
+            for s_ in cnt:
+                sc.env[s_.targets[0].id] = {"n4": 1}
+            try:
+                sc.run([s_ for s_ in preA if s_ not in cnt])
+                sc.env[hname] = S("h")
+                sc.run(post)
+            except _Undecided:
+                pending += [oracle + [True], oracle + [False]]
+                continue
+            ctx.anchor(sc.ret is not None, "murmur2 returns")
+            # lengths (congruent to e modulo 4) on which exactly this sequence of outcomes happens
+            lens = [L for L in range(e, 260, 4) if all(CMP[o](L, k_) == tk for o, k_, tk in sc.trace)]
+            if not lens:
+                continue
+            if _canon(sc.ret) != _canon(ref_fin[e]):
+                ok, witness = False, lens[0]
+        ctx.rep.ob(R, ctx.site(fi, fi.node), f"{fi.qualname}|tail-{e}", ok, f"tail + finaliser for length % 4 == {e}" + (f" (e.g. a key of {witness} bytes)" if witness is not None else "") +
+                   f" differs from Java's (bytes {list(range(e))} mixed in unsigned, multiply iff >= 1, then >>>13, *m, >>>15)")
 
 
 def _expand_chain(c, name_node, at):
